@@ -111,6 +111,16 @@ def evaluate(case):
             fails.append(f"F_to_G on matched grids (N={N}): the array returned by an earlier call changed when the same Transformer transformed "
                          "other data onto the same grid (it is a buffer of the object)")
             return fails
+        # every output point is its own integral: the same points asked for in another order (two ranges concatenated the other way round)
+        # come back with the same values, each next to its abscissa
+        if N >= 3:
+            k = N // 3 + 1
+            rrot = np.concatenate([np.asarray(r)[k:], np.asarray(r)[:k]])
+            rr_out, G_rot, _ = tr.F_to_G(q, f, rrot)
+            if not (np.array_equal(np.asarray(rr_out), rrot) and np.array_equal(np.asarray(G_rot), np.concatenate([G_snap[k:], G_snap[:k]]), equal_nan=True)):
+                fails.append(f"F_to_G on matched grids (N={N}): asking for the output points in another order (r[{k}:] followed by r[:{k}]) does not "
+                             "return the same value for each point")
+                return fails
         # an option switched off by a comparison result (numpy.False_), by 0 or by None is switched off
         for off in ((np.bool_(False), 0, None) if N <= 400 else (np.bool_(False),)):
             _, G_off, _ = tr.F_to_G(q, f, r, lorch=off)
